@@ -414,12 +414,12 @@ def run(ctx):
         cases.append(case_line(obj["source"], obj.get("workers", 2), obj.get("sched", 0), 1))
         kinds.append("replay")
     else:
-        nsched = ctx.n(12, 60)
+        nsched = ctx.n(12, 100)
         for line in corpus("c14_programs.txt"):
             w, src = line.split(" ", 1)
             cases.append(case_line(src, int(w), rng.randrange(1 << 30), nsched))
             kinds.append("corpus")
-        for _ in range(ctx.n(320, 6000)):
+        for _ in range(ctx.n(240, 5000)):
             src = gen_program(rng)
             cases.append(case_line(src, rng.choice([1, 2, 2, 3]), rng.randrange(1 << 30), nsched))
             kinds.append("generated")
